@@ -190,6 +190,39 @@ fn main() {
             }
         }
     }
+    // LONG thick polylines (32 .. 70 vertices; a renderer may treat long polylines differently, e.g. cull segments):
+    // random walks inside a box with sharp spikes (mitered corners of 25 .. 60 degrees) pointing in all four directions
+    // at varying depth inside the vertex bounding box
+    for k in 0..(if th { 1500 } else { 320 }) {
+        let n = 32 + rng.usize(0, 38);
+        let mut v: Vec<Value> = vec![];
+        let (mut x, mut y) = (rng.i32(-40, 40), rng.i32(-40, 40));
+        // two far vertices so that the vertex box is much larger than most of the walk
+        let frame = rng.i32(60, 110);
+        v.push(json!([-frame, rng.i32(-frame, frame)]));
+        while v.len() + 3 < n {
+            if rng.chance(1, 3) {
+                // a spike: out along one axis and back, a few pixels apart
+                let len = rng.i32(12, 50);
+                let gap = rng.i32(2, 9);
+                let (dx, dy, gx, gy) = *rng.pick(&[(1, 0, 0, 1), (-1, 0, 0, 1), (0, 1, 1, 0), (0, -1, 1, 0)]);
+                v.push(json!([x, y]));
+                v.push(json!([x + dx * len + gx * gap, y + dy * len + gy * gap]));
+                v.push(json!([x + 2 * gx * gap, y + 2 * gy * gap]));
+                x += 2 * gx * gap;
+                y += 2 * gy * gap;
+            } else {
+                x = (x + rng.i32(-25, 25)).clamp(-55, 55);
+                y = (y + rng.i32(-25, 25)).clamp(-55, 55);
+                v.push(json!([x, y]));
+            }
+        }
+        v.push(json!([frame, rng.i32(-frame, frame)]));
+        v.push(json!([rng.i32(-frame, frame), frame]));
+        v.push(json!([rng.i32(-frame, frame), -frame]));
+        let w = 2 + (k as u32) % 6;
+        run_case(&mut rec, &json!({"d": {"kind":"prim","shape":{"k":"polyline","v":v,"off":[(k % 3) as i32 * 7 - 7, 0]},"style":style_desc(-1, col.stroke, w, 1)}, "ct": "Rgb565"}));
+    }
     // thick polylines with an interior vertex exactly on the straight, non axis-aligned line between its neighbours,
     // followed by every fourth vertex of a neighbourhood
     {
